@@ -83,6 +83,7 @@ class Params:
         self.terms = {}
         self.order = []
         self.assumed = []
+        self.pins = {}  # native replays: unknown name -> value, to steer the real solver to a counterexample
 
     @property
     def symbolic(self):
@@ -115,6 +116,12 @@ class Params:
 
     def __getitem__(self, name):
         return self._get(name)
+
+    def apply_pins(self, ps):
+        """(native replay only) pin the schedule unknowns of a counterexample with extra constraints"""
+        for name, val in self.pins.items():
+            var = z3.Bool(name) if isinstance(val, bool) else z3.Int(name)
+            ps.ConstraintFromExpression(expression=(var == val))
 
     def assume(self, cond):
         """precondition of the scenario"""
